@@ -197,6 +197,21 @@ func QuirkTerms() []*Term {
 		if q.Kind == KLeaf {
 			base := instantiate(Entry{Op: q}, nil)
 			ts = append(ts, base.Clone().FillDefault())
+			for _, tmpl := range q.QuirkStrings {
+				withTmpl := func(t *Term) *Term {
+					t.FillDefault()
+					t.EachSlot(func(k int, o *Term, i int) {
+						if o.Op == q && i == 0 {
+							o.S[i] = strings.ReplaceAll(tmpl, "{T}", Token(k))
+						}
+					})
+					return t
+				}
+				ts = append(ts, withTmpl(base.Clone()))
+				for _, w := range Entries(Wrappers, 1) {
+					ts = append(ts, withTmpl(instantiate(w, base.Clone())))
+				}
+			}
 			for _, w := range Entries(Wrappers, 1) {
 				w1 := instantiate(w, base.Clone())
 				ts = append(ts, w1.Clone().FillDefault())
@@ -266,6 +281,14 @@ func WithoutQuirks(t *Term) *Term {
 // op called opName (searching the spine, then side trees) to str (raw).
 func withStr(t *Term, slot, str string) *Term { return setStr(t.FillDefault(), t.Op.Name, slot, str) }
 
+// chain applies the wrapper op n times to t.
+func chain(n int, op string, t *Term) *Term {
+	for i := 0; i < n; i++ {
+		t = mk(op, t)
+	}
+	return t
+}
+
 // LongString is 64 KiB of plain ASCII.
 var LongString = "L" + strings.Repeat("y", 65535)
 
@@ -282,6 +305,21 @@ func codeSweepExtras() []*Term {
 		)
 	}
 	return out
+}
+
+// DupVariant returns a copy of t in which every string slot holds s, or
+// nil when t has fewer than two slots.
+func DupVariant(t *Term, s string) *Term {
+	v := t.Clone()
+	n := 0
+	v.EachSlot(func(k int, o *Term, i int) {
+		o.S[i] = s
+		n++
+	})
+	if n < 2 {
+		return nil
+	}
+	return v
 }
 
 // setTok is setStr with the slot's token spliced into the string.
@@ -362,6 +400,15 @@ func Extras() []*Term {
 		setStr(setStr(mk("WithTelemetry2", mk("GoNew", nil)).FillDefault(), "WithTelemetry2", "key1", "dup"), "WithTelemetry2", "key2", "dup"),
 	}
 	ts = append(ts, codeSweepExtras()...)
+	// long chains (more than 32 and more than 64 layers)
+	ts = append(ts,
+		chain(17, "Wrap", mk("New", nil)).FillDefault(),
+		mk("WithHint", chain(34, "WithMessage", mk("GoNew", nil))).FillDefault(),
+		chain(34, "WithHint", mk("Unimplemented", nil)).FillDefault(),
+		mk("WithDetail", chain(70, "WithTelemetry", mk("ut.PtrLeaf", nil))).FillDefault(),
+		mk("Handled", chain(40, "WithMessage", mk("GoNew", nil))).FillDefault(),
+		mk("Join2", chain(34, "WithMessage", mk("GoNew", nil)), mk("GoNew", nil)).FillDefault(),
+	)
 	return ts
 }
 
